@@ -138,6 +138,10 @@ TSOpDone ==
                     \cup Flag(rc = "none" /\ p.k = "err", "respInsteadOfError")
                     \cup Flag(rc = "err", "respAfterRibError")
                     \cup Flag(Ev.resp # expected, "opResp")
+                    \* C01 at the server: the ids acknowledged as programmed on the stream are exactly the ids the RIB call
+                    \* installed (an entry that is installed but never acknowledged, or acknowledged but not installed)
+                    \cup (LET AckIds(r) == IF r.k = "res" THEN {r.results[i].id : i \in {j \in DOMAIN r.results : r.results[j].st = "RIB"}} ELSE {}
+                          IN Flag(AckIds(Ev.resp) # AckIds(expected), "ackedNotInstalled"))
                     \cup Flag(Ev.id # HeadOp.id, "opOrder")
                     \cup (LET foreign == (IF Ev.resp.k = "res" THEN {Ev.resp.results[i].id : i \in DOMAIN Ev.resp.results} ELSE {})
                                          \ {i \in DOMAIN sentby : sentby[i] = req.s}
